@@ -292,12 +292,12 @@ Definition handle_meta (op : list N) (args : list sexp) : option sexp :=
     | _ => None end
   else if atom_is "meta.write_stream" op then
     match args with
-    | [fs; v; md; sk; c; fl] =>
-        match getFs fs, getBool v, getMeta md, getBool sk, getB c, getBool fl with
-        | Some fs, Some v, Some md, Some sk, Some c, Some fl =>
-            let '(r, s') := write_stream simple_is_url fs v md {| ss_seekable := sk; ss_content := c; ss_fail := fl |} in
+    | [fs; v; md; sk; c; pos; fl] =>
+        match getFs fs, getBool v, getMeta md, getBool sk, getB c, getZ pos, getBool fl with
+        | Some fs, Some v, Some md, Some sk, Some c, Some pos, Some fl =>
+            let '(r, s') := write_stream simple_is_url fs v md {| ss_seekable := sk; ss_content := c; ss_pos := pos; ss_fail := fl |} in
             Some (L [res_sexp unit_sexp r; HA (ss_content s')])
-        | _, _, _, _, _, _ => None end
+        | _, _, _, _, _, _, _ => None end
     | _ => None end
   else if atom_is "benc.decode" op then
     match args with
